@@ -66,6 +66,22 @@ BNMod(a, n) ==
                     r2 == BNAdd(BNAdd(rem, rem), IF bit = 1 THEN <<1>> ELSE <<>>)
                 IN IF BNCmp(r2, n) >= 0 THEN BNSub(r2, n) ELSE r2,
               <<>>, [k \in 1..nb |-> k])
+\* floor(a / n) by the same shift-and-subtract loop (used once, for constants)
+BNDiv(a, n) ==
+  LET nb == 13 * Len(a)
+      r == FoldLeft(LAMBDA st, k :
+                LET bit == (a[((nb - k) \div 13) + 1] \div Pow2((nb - k) % 13)) % 2
+                    r2 == BNAdd(BNAdd(st[1], st[1]), IF bit = 1 THEN <<1>> ELSE <<>>)
+                    q2 == BNAdd(st[2], st[2])
+                IN IF BNCmp(r2, n) >= 0 THEN <<BNSub(r2, n), BNAdd(q2, <<1>>)>> ELSE <<r2, q2>>,
+              <<<<>>, <<>>>>, [k \in 1..nb |-> k])
+  IN r[2]
+\* floor(a / 2^n)
+BNShr(a, n) ==
+  LET q == n \div 13  b == n % 13
+      x == IF Len(a) <= q THEN <<>> ELSE SubSeq(a, q + 1, Len(a))
+  IN IF b = 0 THEN x
+     ELSE Trim([i \in 1..Len(x) |-> (x[i] \div Pow2(b)) + ((Limb(x, i + 1) % Pow2(b)) * Pow2(13 - b))])
 \* 2^n as a BigNat
 BNPow2(n) == [i \in 1..(n \div 13) |-> 0] \o <<Pow2(n % 13)>>
 \* number of significant bits
